@@ -11,7 +11,7 @@ use serde_json::json;
 
 pub fn run(ctx: &Ctx) {
     let mut rep = Report::new("C10", &ctx.tier, ctx.seed);
-    rep.rule = "for every ordered pair (producer kind, parser kind) over 17 text kinds x 6 backends (102 x 102), several valid serialisations of the producer (data lengths 0, 32, 33, 49, 64, 96 and random; tokens with and without footer) are offered to the parser; acceptance is allowed only when the two full prefixes are the same string (sibling backends, PKE keys serialised as ordinary keys) and the footer type admits the footer. non-trivial = producer and parser differ; distinct = distinct (producer, parser, data-length class)".into();
+    rep.rule = "for every ordered pair (producer kind, parser kind) over 17 text kinds x 6 backends (102 x 102), several valid serialisations of the producer (data lengths 0, 32, 33, 49, 64, 96 and random; tokens with and without footer) are offered to the parser; acceptance is allowed only when the two full prefixes are the same string (sibling backends, PKE keys serialised as ordinary keys) and the footer type admits the footer. v1 RSA keys of 2048 / 4096 bits and of ten near-miss sizes offered as each of the four k1 key kinds; non-trivial = producer and parser differ; distinct = distinct (producer, parser, data-length class)".into();
     let types = impls::text_types();
     let mut model = Model::spawn(&ctx.model);
     let mut g = SplitMix64::new(ctx.seed ^ 0xC10);
@@ -154,6 +154,45 @@ pub fn run(ctx: &Ctx) {
                         }
                         rep.nontrivial(format!("len|{}|{kind}|{len}", b.name));
                     }
+                }
+            }
+        }
+    }
+    // ---- v1: the token-signing kinds and the key-sealing (PKE) kinds share the headers k1.public. / k1.secret. and
+    //      differ only in the modulus size (2048 / 4096 bits): a key of one kind is never accepted as the other,
+    //      nor is a modulus of any other size accepted as either
+    if replay_filter.is_none() {
+        use rsa::pkcs1::DecodeRsaPrivateKey;
+        use rsa::pkcs8::spki::EncodePublicKey;
+        let bs = crate::lab::backends();
+        if let Some(b) = bs.iter().find(|b| b.name == "v1") {
+            let mut keys: Vec<(usize, Vec<u8>)> = vec![];
+            for bits in [2048usize, 4096] {
+                for der in crate::tok::corpus_rsa_keys(bits) {
+                    keys.push((bits, der));
+                }
+            }
+            for bits in [1024usize, 2040, 2047, 2049, 2050, 2056, 3072, 4088, 4094, 4095] {
+                for der in crate::tok::corpus_rsa_keys_named(bits, "x") {
+                    keys.push((bits, der));
+                }
+            }
+            for (bits, der) in &keys {
+                let pub_der = match rsa::RsaPrivateKey::from_pkcs1_der(der).ok().and_then(|k| k.to_public_key().to_public_key_der().ok()) {
+                    Some(p) => p.into_vec(),
+                    None => continue,
+                };
+                for (kind, want_bits, bytes) in [("secret", 2048usize, der), ("public", 2048, &pub_der), ("pke-secret", 4096, der), ("pke-public", 4096, &pub_der)] {
+                    rep.evaluations += 1;
+                    let r = (b.key_roundtrip)(kind, bytes);
+                    let case = json!({"op": "key-length", "parser_backend": "v1", "parser_kind": kind, "input_hex": hex::encode(bytes)});
+                    match (&r, *bits == want_bits) {
+                        (Ok(_), false) => rep.violation("kind.accepted", format!("v1 accepts an RSA key with a {bits}-bit modulus as a {kind} key (that kind has {want_bits}-bit moduli)"), case),
+                        (Err(e), _) if e == "panic" => rep.violation("length.panic", format!("v1 panics on a {bits}-bit RSA key offered as a {kind} key"), case),
+                        (Err(e), true) => rep.violation("kind.rejected", format!("v1 rejects a {bits}-bit RSA key as a {kind} key: {e}"), case),
+                        _ => {}
+                    }
+                    rep.nontrivial(format!("v1kind|{kind}|{bits}"));
                 }
             }
         }
